@@ -491,7 +491,7 @@ fn markdown_file(fe: &str, r: &mut Rng) -> Built {
         let k = r.range(1, 3);
         b.prose(r, k);
         b.raw(" ");
-        b.non(&format!("#{}", r.range(1, 999)), "issue_ref");
+        b.raw(&format!("#{}", r.range(1, 999)));
         b.raw(" ");
         let k = r.range(1, 4);
         b.prose(r, k);
